@@ -10,6 +10,7 @@ import Holpy.C20.ProofsLex4
 import Holpy.C20.ProofsLexCom
 import Holpy.C20.ProofsVcWf
 import Holpy.C20.ProofsComParse
+import Holpy.C20.ProofsHist
 /-
 C20 — property theorems (helper lemmas: Proofs.lean, ProofsSem.lean, ProofsParse.lean).
 `Exec` is the big-step semantics of Proofs.lean, `holds s e` is `evalE s e = some (.bool true)`,
@@ -380,5 +381,101 @@ theorem hoare_rules_valid :
 
 example : Gen.hoareRuleNames =
     ["Sem_Skip", "Sem_Assign", "pre_rule", "skip_rule", "assign_rule", "seq_rule", "if_rule", "while_rule"] := by decide
+
+/-! ### ONE command object analysed more than once (mutable `Com.pre` / `Com.post`) -/
+
+/-- Re-used objects: after ANY history of `obj.pre = [p]`, `obj.compute_wp(..)`, `get_vcs`, `print_com` on one object
+built for `c` in which only reads follow the last `compute_wp(q)`: if every condition `get_vcs` then returns is valid,
+every terminating execution of `c` from a state satisfying `obj.pre[0]` (the value that `compute_wp` returned) ends in a
+state satisfying `q` -- whatever was stored in the object's `pre`/`post` lists by the earlier analyses. -/
+theorem history_vcs_sound_ret (c : Com) (h1 h2 : List Op) (q : Expr) (hro : ∀ o ∈ h2, o.readOnly = true)
+    (hv : ∀ v ∈ getVcs (runOps (ACom.init c) (h1 ++ .wp q :: h2)), valid v)
+    (s s' : State) (hs : holds s (runOps (ACom.init c) (h1 ++ .wp q :: h2)).ret) (hex : Exec c s s') : holds s' q := by
+  have e : runOps (ACom.init c) (h1 ++ .wp q :: h2) = reWpAux [] (runOps (ACom.init c) h1) q := by
+    simp only [runOps, List.foldl_append, List.foldl_cons]
+    exact runOps_readOnly h2 _ hro
+  rw [e] at hv hs
+  have hc : (runOps (ACom.init c) h1).erase = c := by rw [runOps_erase, init_erase]
+  exact reWp_sound _ [] q hv s s' (by rw [hc]; exact hex) hs
+
+/-- The same with the precondition the caller stated: `p` is the argument of the last `obj.pre = [p]`, `q` the argument
+of the last `compute_wp`, which comes after it; all VCs of the final `get_vcs` valid ==> `{p} c {q}` (partial correctness). -/
+theorem history_vcs_sound (c : Com) (h1 h2 : List Op) (p q : Expr) (hp : lastPre h1 = some p)
+    (hro : ∀ o ∈ h2, o.readOnly = true)
+    (hv : ∀ v ∈ getVcs (runOps (ACom.init c) (h1 ++ .wp q :: h2)), valid v)
+    (s s' : State) (hs : holds s p) (hex : Exec c s s') : holds s' q := by
+  refine history_vcs_sound_ret c h1 h2 q hro hv s s' ?_ hex
+  have e : runOps (ACom.init c) (h1 ++ .wp q :: h2) = reWpAux [] (runOps (ACom.init c) h1) q := by
+    simp only [runOps, List.foldl_append, List.foldl_cons]
+    exact runOps_readOnly h2 _ hro
+  have h0 : headIs p (runOps (ACom.init c) h1) := lastPre_headIs h1 _ none (by intro _ h; cases h) p hp
+  have hr : (reWpAux [] (runOps (ACom.init c) h1) q).ret = p :=
+    headIs_ret (headIs_step (.wp q) (by intro _ h; cases h) h0)
+  rw [e, hr]
+  exact hs
+
+/-- non-vacuity: the countdown loop analysed for a wrong postcondition first, printed, then analysed again for the right
+one on the same object: 5 conditions (the 3 of a fresh object + 2 repeated ones, e.g. `I & b --> I & b` in the body), all valid; the loop runs. -/
+example : let h1 : List Op := [.vcs, .setPre Ex.inv, .wp Ex.inv, .print, .setPre Ex.inv]
+    lastPre h1 = some Ex.inv ∧
+    (getVcs (runOps (ACom.init Ex.prog) (h1 ++ .wp Ex.post :: [.vcs, .print]))).length = 5 ∧
+    (∀ v ∈ getVcs (runOps (ACom.init Ex.prog) (h1 ++ .wp Ex.post :: [.vcs, .print])), valid v) ∧
+    holds Ex.s1 Ex.inv ∧ Exec Ex.prog Ex.s1 (upd Ex.s1 "a" 0) := by
+  refine ⟨by decide, by decide, ?_, by simp [holds, Ex.inv, Ex.s1, evalE, evalBin], ?_⟩
+  · have e : getVcs (runOps (ACom.init Ex.prog)
+        ([.vcs, .setPre Ex.inv, .wp Ex.inv, .print, .setPre Ex.inv] ++ .wp Ex.post :: [.vcs, .print])) =
+        [implies Ex.inv Ex.inv,
+         implies (conj Ex.inv (.bin .lt (.int 0) (.var "a"))) (conj Ex.inv (.bin .lt (.int 0) (.var "a"))),
+         implies (conj Ex.inv (.bin .lt (.int 0) (.var "a"))) (.bin .le (.int 0) (.bin .sub (.var "a") (.int 1))),
+         implies (.bin .le (.int 0) (.bin .sub (.var "a") (.int 1))) (.bin .le (.int 0) (.bin .sub (.var "a") (.int 1))),
+         implies (conj Ex.inv (neg (.bin .lt (.int 0) (.var "a")))) Ex.post] := by decide
+    rw [e]
+    intro v hv
+    simp only [List.mem_cons, List.not_mem_nil, or_false] at hv
+    rcases hv with rfl | rfl | rfl | rfl | rfl <;> intro s <;>
+      simp only [holds, implies, conj, neg, Ex.inv, Ex.post, evalE, evalBin, evalUn] <;>
+      simp <;> omega
+  · refine .whileT (s1 := upd Ex.s1 "a" 0) ?_ (.assign ?_) (.whileF ?_) <;>
+      simp [Ex.s1, evalE, evalBin, upd]
+
+/-- The order matters: `obj.pre = [p]` AFTER the last `compute_wp` throws the analysis of the top node away -- `get_vcs`
+returns nothing for `skip`, yet `{true} skip {a == 0}` is false.  (The caller's protocol, parser2 and app/imperative.py set
+`pre` before analysing; this is why `history_vcs_sound` asks for it.) -/
+theorem history_set_pre_after_wp_counterexample :
+    getVcs (runOps (ACom.init .skip) [.wp Ex.post, .setPre etrue]) = [] ∧
+    holds Ex.s1 etrue ∧ Exec .skip Ex.s1 Ex.s1 ∧ ¬ holds Ex.s1 Ex.post := by
+  refine ⟨by decide, by simp [holds, etrue, evalE], .skip, ?_⟩
+  simp [holds, Ex.post, Ex.s1, evalE, evalBin]
+
+/-- A fresh object analysed once is the special case `vcs_sound` talks about. -/
+theorem history_fresh (c : Com) (p q : Expr) :
+    getVcs (runOps (ACom.init c) [.setPre p, .wp q]) = vcsOf p c q := by
+  simp only [runOps, List.foldl_cons, List.foldl_nil, stepOp, reWp, vcsOf]
+  congr 1
+  cases c <;> simp [ACom.init, ACom.setPre, reWpAux, computeWp, reWpAux_init]
+
+example : getVcs (runOps (ACom.init Ex.prog) [.setPre Ex.inv, .wp Ex.post]) = vcsOf Ex.inv Ex.prog Ex.post ∧
+    (vcsOf Ex.inv Ex.prog Ex.post).length = 3 := ⟨by decide, by decide⟩
+
+/-- What a re-analysis does on the current tree: nothing is forgotten below the top node.  `a := a + 1` after `skip`,
+analysed for `a == 1` and then (with `pre` set again) for `a == 2`, keeps asking for the old intermediate assertion:
+the second `get_vcs` contains `a + 1 == 1 --> a + 1 == 2`, which is not valid, although `{a == 1} skip; a := a + 1 {a == 2}`
+is true and a fresh object's conditions for it are valid: re-analysis is sound (above) but NOT complete. -/
+theorem history_reanalysis_incomplete :
+    let c : Com := .seq .skip (.assign "a" (.bin .add (.var "a") (.int 1)))
+    let q1 : Expr := .bin .eq (.var "a") (.int 1)
+    let q2 : Expr := .bin .eq (.var "a") (.int 2)
+    let w1 : Expr := .bin .eq (.bin .add (.var "a") (.int 1)) (.int 1)
+    let w2 : Expr := .bin .eq (.bin .add (.var "a") (.int 1)) (.int 2)
+    implies w1 w2 ∈ getVcs (runOps (ACom.init c) [.setPre q1, .wp q1, .setPre q1, .wp q2]) ∧
+    ¬ valid (implies w1 w2) ∧ vcsOf q1 c q2 = [implies q1 w2] ∧ valid (implies q1 w2) := by
+  refine ⟨by decide, ?_, by decide, ?_⟩
+  · intro h
+    have := h (fun _ => 0)
+    simp [holds, implies, evalE, evalBin] at this
+  · intro s
+    simp only [holds, implies, evalE, evalBin]
+    simp
+    omega
 
 end Holpy.C20
